@@ -13,24 +13,31 @@ CTX_METHODS = {
     "pop": ("pub fn pop(&mut self) -> (r: Option<Primitive>)",
             """ensures old(self).stack@.len() == 0 ==> r is None && final(self).stack@ == old(self).stack@,
             old(self).stack@.len() > 0 ==> r == Some(old(self).stack@.last()) && final(self).stack@ == old(self).stack@.drop_last(),
-            final(self).exit_state == old(self).exit_state, final(self).locals == old(self).locals"""),
+            final(self).exit_state == old(self).exit_state, rest(final(self)) == rest(old(self))"""),
     "push": ("pub fn push(&mut self, var: Primitive)",
-             "ensures final(self).stack@ == old(self).stack@.push(var), final(self).exit_state == old(self).exit_state, final(self).locals == old(self).locals"),
+             "ensures final(self).stack@ == old(self).stack@.push(var), final(self).exit_state == old(self).exit_state, rest(final(self)) == rest(old(self))"),
     "signal": ("pub fn signal(&mut self, exit_state: Exit)",
-               "ensures final(self).exit_state == exit_state, final(self).stack@ == old(self).stack@, final(self).locals == old(self).locals"),
+               "ensures final(self).exit_state == exit_state, final(self).stack@ == old(self).stack@, rest(final(self)) == rest(old(self))"),
     "stack_size": ("pub fn stack_size(&self) -> (r: usize)", "ensures r == self.stack@.len()"),
     "get_last_op_item": ("pub fn get_last_op_item(&self) -> (r: Option<&Primitive>)",
                          "ensures self.stack@.len() == 0 ==> r is None, self.stack@.len() > 0 ==> r == Some(&self.stack@.last())"),
     "set_last_op_item": ("pub fn set_last_op_item(&mut self, item: Primitive)",
                          """requires old(self).stack@.len() > 0
-        ensures final(self).stack@ == old(self).stack@.update(old(self).stack@.len() - 1, item), final(self).exit_state == old(self).exit_state, final(self).locals == old(self).locals"""),
+        ensures final(self).stack@ == old(self).stack@.update(old(self).stack@.len() - 1, item), final(self).exit_state == old(self).exit_state, rest(final(self)) == rest(old(self))"""),
     "clear_and_set_stack": ("pub fn clear_and_set_stack(&mut self, var: Primitive)",
-                            "ensures final(self).stack@ == seq![var], final(self).exit_state == old(self).exit_state, final(self).locals == old(self).locals"),
+                            "ensures final(self).stack@ == seq![var], final(self).exit_state == old(self).exit_state, rest(final(self)) == rest(old(self))"),
     "clear_stack": ("pub fn clear_stack(&mut self)",
-                    "ensures final(self).stack@.len() == 0, final(self).exit_state == old(self).exit_state, final(self).locals == old(self).locals"),
+                    "ensures final(self).stack@.len() == 0, final(self).exit_state == old(self).exit_state, rest(final(self)) == rest(old(self))"),
 }
 
+CTX_METHODS["load_callback_variable"] = ("pub fn load_callback_variable(&self, name: &VString) -> (r: Result<Handle, VErr>)",
+    """ensures (r is Ok <==> (self.callback_state is Some && caps_view(&self.callback_state->Some_0).contains_key(text_of(name)))),
+            r is Ok ==> cell_id(&r->Ok_0) == cell_id(&caps_view(&self.callback_state->Some_0)[text_of(name)])""")
+CTX_METHODS["get_local_operating_stack"] = ("pub fn get_local_operating_stack(&self) -> (r: &Vec<Primitive>)", "ensures *r == self.stack")
+
 CTX_RULES = [
+    Rule("R3", "bail ! $a", "return Err ( VErr )", why="bail! -> return Err"),
+    Rule("R6", "mapping . get ( name )", "caps_get ( mapping , name )", why="VariableMapping::get: finite-map lookup returning a handle of the same cell"),
     Rule("R1", "* self . exit_state = $$e ;", "self . exit_state = $$e ;", why="Box<InstructionExitState> field -> plain field"),
     Rule("R8", "* self . stack . last_mut ( ) . unwrap ( ) = $$e ;", "vec_set_last ( & mut self . stack , $$e ) ;", why="last_mut().unwrap() with its panic precondition (non-empty)"),
     Rule("R9", "self . stack . last ( )", "vec_last ( & self . stack )", why="slice::last with its std contract"),
@@ -41,7 +48,12 @@ CTX_STRUCT = r"""
 // the call stack's business and is covered by the frame-routing units)
 #[verifier::external_body] pub struct Locals { x: usize }
 pub uninterp spec fn locals_view(l: &Locals) -> Map<Seq<char>, Primitive>;
-pub struct Ctx { pub stack: Vec<Primitive>, pub exit_state: Exit, pub locals: Locals }
+// the call stack frames as seen by name lookups (Stack::find_name: nearest frame first; covered by the frame-routing unit)
+#[verifier::external_body] pub struct Frames { x: usize }
+pub uninterp spec fn frame_lookup(f: &Frames, name: Seq<char>) -> Option<Handle>;
+pub struct Ctx { pub stack: Vec<Primitive>, pub exit_state: Exit, pub locals: Locals, pub frames: Frames, pub callback_state: Option<Caps>, pub call_stack: StackRef }
+// everything of the context that is neither the operand stack nor the exit state
+pub open spec fn rest(c: &Ctx) -> (Locals, Frames, Option<Caps>, StackRef) { (c.locals, c.frames, c.callback_state, c.call_stack) }
 """
 
 CTX_EXTRA = r"""
@@ -51,8 +63,16 @@ CTX_EXTRA = r"""
     pub fn register_variable_local(&mut self, name: VString, var: Primitive) -> (r: Result<(), VErr>)
         ensures final(self).stack@ == old(self).stack@, final(self).exit_state == old(self).exit_state,
                 r is Ok ==> locals_view(&final(self).locals) == locals_view(&old(self).locals).insert(text_of(&name), var),
-                r is Err ==> final(self).locals == old(self).locals
+                r is Err ==> rest(final(self)) == rest(old(self))
     { unimplemented!() }
+    // Ctx::load_variable -> Stack::find_name (abstract callee): the handle of the nearest frame that has the name
+    #[verifier::external_body]
+    pub fn load_variable(&self, name: &VString) -> (r: Option<Handle>)
+        ensures r is Some <==> frame_lookup(&self.frames, text_of(name)) is Some,
+                r is Some ==> cell_id(&r->Some_0) == cell_id(&frame_lookup(&self.frames, text_of(name))->Some_0)
+    { unimplemented!() }
+    #[verifier::external_body]
+    pub fn rced_call_stack(&self) -> (r: StackRef) ensures r == self.call_stack { unimplemented!() }
 """
 
 
@@ -140,7 +160,7 @@ pub fn jmp_not_nil(ctx: &mut Ctx, args: &Vec<VString>) -> (r: Result<(), VErr>)
                 && (!(top is Optional) ==> final(ctx).stack@.last() == old(ctx).stack@.last())
             }}
         }}),
-        final(ctx).locals == old(ctx).locals
+        rest(final(ctx)) == rest(old(ctx))
 {{
 {render(b_jnn, 1)}
 }}
@@ -190,7 +210,136 @@ fn main() {{}}
     return gen, obls, log
 
 
+# =====================================================================================================================
+# C19: call_lib
+def build_c19(repo):
+    src = Source(repo)
+    log = []
+    names = ["signal", "clear_stack", "get_local_operating_stack"]
+    ctx = ctx_impl(src, log, names)
+    b = handler(src, log, "call_lib", [
+        Rule("R1", "ctx . get_local_operating_stack ( ) . clone ( )", "clone_stack ( ctx . get_local_operating_stack ( ) )", count=1, why="Vec<Primitive>::clone"),
+        Rule("R1", "lib_name . clone ( )", "clone_vs ( lib_name )", why="String clone"),
+        Rule("R1", "func_name . clone ( )", "clone_vs ( func_name )", why="String clone"),
+    ])
+    gen = header(log, f"{INSTR}: call_lib; {CTXF}: Ctx methods") + prelude("ctx.rs") + ctx + f"""
+//@ OBL C19.call_lib
+pub fn call_lib(ctx: &mut Ctx, args: &Vec<VString>) -> (r: Result<(), VErr>)
+    ensures
+        // the library name and the function name are required
+        args@.len() < 2 ==> r is Err && final(ctx).exit_state == old(ctx).exit_state,
+        // otherwise the call is requested with the caller's operand stack, in order and unchanged, as the argument slice of
+        // exactly the named function of the named library -- for operands of every kind -- and the operand stack is left empty
+        args@.len() >= 2 ==> r is Ok && final(ctx).stack@.len() == 0 && (final(ctx).exit_state matches Exit::JumpRequest(req) && {{
+            &&& req.destination == (JumpRequestDestination::Library {{ lib_name: args@[0], func_name: args@[1] }})
+            &&& req.arguments@ == old(ctx).stack@
+            &&& req.callback_state is None
+            &&& req.stack == old(ctx).call_stack
+        }}),
+        rest(final(ctx)) == rest(old(ctx)),
+{{
+{render(b, 1)}
+}}
+
+}} // verus!
+fn main() {{}}
+"""
+    obls = ctx_obls(names, ["C19"]) + [Obl("C19.call_lib", ["C19"], fn="call_lib",
+            desc="call_lib: JumpRequest to Library{args[0], args[1]} carrying the whole operand stack in order and unchanged (any operand kinds); operand stack cleared; missing names -> Err")]
+    return gen, obls, log
+
+
+# =====================================================================================================================
+# C07: make_function -- capture by reference (which handle goes where)
+C07_SPEC = r"""
+#[verifier::external_body] pub struct CapMap { x: usize }        // HashMap<String, PrimitiveFlagsPair> under construction
+pub uninterp spec fn capmap_view(m: &CapMap) -> Map<Seq<char>, Handle>;
+#[verifier::external_body] pub fn capmap_with_capacity(n: usize) -> (r: CapMap) ensures capmap_view(&r) == Map::<Seq<char>, Handle>::empty() { unimplemented!() }
+#[verifier::external_body] pub fn capmap_insert(m: &mut CapMap, k: VString, v: Handle)
+    ensures capmap_view(final(m)) == capmap_view(old(m)).insert(text_of(&k), v) { unimplemented!() }
+#[verifier::external_body] pub fn caps_from(m: CapMap) -> (r: Caps) ensures caps_view(&r) == capmap_view(&m) { unimplemented!() }
+#[verifier::external_body] pub fn vs_into(s: &VString) -> (r: VString) ensures r == *s { unimplemented!() }
+
+// the variable a name denotes at the point where the function value is created: the running function's frames first,
+// then the variables it captured itself
+pub open spec fn found(ctx: &Ctx, n: Seq<char>) -> Option<Handle> {
+    if frame_lookup(&ctx.frames, n) is Some { frame_lookup(&ctx.frames, n) }
+    else if ctx.callback_state is Some && caps_view(&ctx.callback_state->Some_0).contains_key(n) { Some(caps_view(&ctx.callback_state->Some_0)[n]) }
+    else { None }
+}
+"""
+
+
+def build_c07(repo):
+    src = Source(repo)
+    log = []
+    names = ["push", "load_callback_variable"]
+    ctx = ctx_impl(src, log, names)
+
+    def loop(b):
+        x = text(b["x"])
+        return ["let mut verif_k : usize = 1 ; while verif_k < args . len ( )",
+                G("""invariant 1 <= verif_k <= args@.len(), *ctx == *old(ctx),
+    forall|i: int| 1 <= i < verif_k ==> #[trigger] capmap_view(&arguments).contains_key(text_of(&args@[i])),
+    forall|n: Seq<char>| #[trigger] capmap_view(&arguments).contains_key(n) ==> found(ctx, n) is Some && cell_id(&capmap_view(&arguments)[n]) == cell_id(&found(ctx, n)->Some_0),
+    forall|n: Seq<char>| #[trigger] capmap_view(&arguments).contains_key(n) ==> exists|i: int| 1 <= i < verif_k && text_of(&args@[i]) == n,
+decreases args@.len() - verif_k,"""),
+                "{", f"let {x} = & args [ verif_k ] ;", G("let ghost verif_before = capmap_view(&arguments);"), "verif_k += 1 ;", *b["body"],
+                G("""proof {
+    assert forall|n: Seq<char>| #[trigger] capmap_view(&arguments).contains_key(n) implies exists|i: int| 1 <= i < verif_k && text_of(&args@[i]) == n by {
+        if verif_before.contains_key(n) { let i0 = choose|i: int| 1 <= i < verif_k - 1 && text_of(&args@[i]) == n; assert(1 <= i0 < verif_k && text_of(&args@[i0]) == n); }
+        else { assert(text_of(&args@[verif_k - 1]) == n); }
+    }
+}"""), "}"]
+
+    b = handler(src, log, "make_function", [
+        Rule("R2", "for $x in & args [ 1 .. ] { $$body }", loop, count=1, why="for over the slice args[1..] -> indexed while starting at 1"),
+        Rule("R6", "HashMap :: with_capacity ( $$n )", "capmap_with_capacity ( $$n )", count=1, why="std::HashMap as finite map"),
+        Rule("R6", "arguments . insert ( var_name . clone ( ) , var . clone ( ) ) ;", "capmap_insert ( & mut arguments , clone_vs ( var_name ) , clone_handle ( & var ) ) ;", count=1, why="HashMap::insert as finite-map update; handle clone keeps the cell"),
+        Rule("R6", "arguments . into ( )", "caps_from ( arguments )", count=1, why="HashMap -> VariableMapping (same finite map)"),
+        Rule("R1", "PrimitiveFunction :: new ( location . into ( ) , callback_state )", "PrimitiveFunction { location : vs_into ( location ) , callback_state : callback_state }", count=1, why="const fn constructor = struct literal"),
+        Rule("R1", "function ! ( $$e )", "Primitive :: Function ( $$e )", count=1, why="function! shorthand"),
+    ])
+    gen = header(log, f"{INSTR}: make_function; {CTXF}: Ctx::push, Ctx::load_callback_variable") + prelude("ctx.rs") + ctx + C07_SPEC + f"""
+//@ OBL C07.capture.copies-handles
+pub fn make_function(ctx: &mut Ctx, args: &Vec<VString>) -> (r: Result<(), VErr>)
+    ensures r is Ok ==> {{
+        &&& args@.len() >= 1
+        &&& final(ctx).stack@.len() == old(ctx).stack@.len() + 1 && final(ctx).stack@.drop_last() == old(ctx).stack@
+        &&& final(ctx).stack@.last() is Function
+        &&& ({{ let f = final(ctx).stack@.last()->Function_0;
+              // a function that captures nothing is not a closure
+              &&& (args@.len() == 1 <==> f.callback_state is None)
+              &&& f.location == args@[0]
+              &&& args@.len() > 1 ==> ({{
+                    let m = caps_view(&f.callback_state->Some_0);
+                    // by reference: every listed name is captured, as the SAME cell the defining scope sees (its own frames
+                    // first, then what it captured itself), and nothing else is captured
+                    &&& forall|i: int| 1 <= i < args@.len() ==> #[trigger] m.contains_key(text_of(&args@[i]))
+                    &&& forall|n: Seq<char>| #[trigger] m.contains_key(n) ==> found(old(ctx), n) is Some && cell_id(&m[n]) == cell_id(&found(old(ctx), n)->Some_0)
+                    &&& forall|n: Seq<char>| #[trigger] m.contains_key(n) ==> exists|i: int| 1 <= i < args@.len() && text_of(&args@[i]) == n
+              }})
+        }})
+    }},
+{{
+{render(b, 1)}
+}}
+
+}} // verus!
+fn main() {{}}
+"""
+    obls = ctx_obls(names, ["C07"]) + [Obl("C07.capture.copies-handles", ["C07"], fn="make_function",
+            desc="make_function: the capture map has exactly the listed names, each bound to the same cell the defining scope's lookup (frames first, then its own captures) finds; no capture list -> not a closure")]
+    return gen, obls, log
+
+
+UNITS_EXTRA = [VUnit("c19_call_lib", ["C19"], "call_lib handler", build_c19), VUnit("c07_make_function", ["C07"], "make_function: capture by reference (handle routing)", build_c07)]
+UNITS_EXTRA[0].assumes = ["libloading / the dynamic library call itself and the ABI of &[Primitive] are outside the contract (interpreter.rs process_library_jump_request is a separate unit)"]
+UNITS_EXTRA[1].assumes = ["cell semantics of the gc crate assumed: clone of a handle keeps the cell; a write through one handle is seen through all handles of that cell",
+                          "std::HashMap as a finite map; Stack::find_name (frame lookup) is an abstract callee here"]
+
 UNITS = [VUnit("c12_handlers", ["C12", "C15"], "optional handlers: jmp_not_nil, unwrap, unwrap_into", build_c12)]
+UNITS += UNITS_EXTRA
 UNITS[0].assumes = [
     "heap pointers (HeapPrimitive) are abstract: move_out_of_heap_primitive(_borrow) is the identity on other values and an arbitrary value/error on pointers",
     "Stack::register_variable_local is an abstract callee (binds the name in the current frame); frame routing is covered by the C07 units",
